@@ -112,7 +112,8 @@ func NewExec(p *Program, w *World, prefix string) *Exec {
 func (x *Exec) oblName(kind, detail string) string {
 	n := kind
 	if detail != "" {
-		n += ":" + detail
+		// obligation names are single tokens (they appear in VIOLATION lines and in known_findings.json)
+		n += ":" + strings.Join(strings.Fields(detail), "")
 	}
 	x.names[n]++
 	if c := x.names[n]; c > 1 {
